@@ -1,6 +1,7 @@
 package checks
 
 import (
+	"os"
 	"fmt"
 	"strings"
 	"sync"
@@ -400,7 +401,7 @@ func shortVals(l []interface{}) []string {
 func C16(tier string) int {
 	res := NewResult("C16", tier, "exploration")
 	cases := c16cases(res.Thorough())
-	res.Rule = fmt.Sprintf("Update: stored object with each subset of {name, content, summary, an unknown member} x update object assigning each member in {absent, new value, null}; two objects with every pair of independent assignments (81 x 81) and three-object triples; Delete: 1..%d objects of 3 types with/without published/updated, IRI/embedded, model clock; Add/Remove: every sequence of 1..%d objects (IRI/embedded) x every sequence of distinct targets over {owned Collection with duplicates, owned OrderedCollection with duplicates, foreign, a collection on the local host that another tenant owns, an owned collection on a foreign host}, the stored collections spelling their entries as IRIs or as a mixture of IRIs, embedded objects and a Link named by href; Like and Block with the same object sequences, Like also with its 'actor' naming another local actor / several actors / a remote actor / nobody (the ids go to the liked collection of the outbox's owner); each type with object/target absent or empty; Social-only and both protocols; every Like / Block and every third other request again with application hooks wrapped around the default callbacks; %d base requests; plus every ordered pair (thorough: a third of the triples) of single-object Add / Remove / Like requests as a history on ONE application, the reference model applied step by step, and every ordered pair of Updates of one stored object; oracle: a reference model on JSON (merge + null deletion, Tombstone fields, collection edits on owned targets only, liked front insertion, Block undelivered, 400 and unchanged state for missing members)", map[bool]int{false: 2, true: 3}[res.Thorough()], map[bool]int{false: 2, true: 3}[res.Thorough()], len(cases))
+	res.Rule = fmt.Sprintf("Update: stored object with each subset of {name, content, summary, an unknown member} x update object assigning each member in {absent, new value, null}; two objects with every pair of independent assignments (81 x 81) and three-object triples; Delete: 1..%d objects of 3 types with/without published/updated, IRI/embedded, model clock; Add/Remove: every sequence of 1..%d objects (IRI/embedded) x every sequence of distinct targets over {owned Collection with duplicates, owned OrderedCollection with duplicates, foreign, a collection on the local host that another tenant owns, an owned collection on a foreign host}, the stored collections spelling their entries as IRIs or as a mixture of IRIs, embedded objects and a Link named by href; Like and Block with the same object sequences, Like also with its 'actor' naming another local actor / several actors / a remote actor / nobody (the ids go to the liked collection of the outbox's owner); each type with object/target absent or empty; Social-only and both protocols; every Like / Block and every third other request again with application hooks wrapped around the default callbacks; %d base requests; plus every ordered pair (and every triple over 12 of them; thorough: a third of all triples) of single-object Add / Remove / Like requests as a history on ONE application, the reference model applied step by step, and every ordered pair of Updates of one stored object; oracle: a reference model on JSON (merge + null deletion, Tombstone fields, collection edits on owned targets only, liked front insertion, Block undelivered, 400 and unchanged state for missing members)", map[bool]int{false: 2, true: 3}[res.Thorough()], map[bool]int{false: 2, true: 3}[res.Thorough()], len(cases))
 	res.Assumptions = []string{"JSON nulls are looked for inside the activity's object (ActivityPub 6.3.1), which is what the statement's wording names", "the stored copy of the activity and the outbox entry are C05's",
 		"one collection named twice as target is excluded here (C09's known finding)"}
 	var mu sync.Mutex
@@ -597,6 +598,27 @@ func C16(tier string) int {
 	for _, c1 := range hist {
 		for _, c2 := range hist {
 			runHist([]c16case{c1, c2})
+		}
+	}
+	if os.Getenv("VERIF_C16_LIST") != "" {
+		for i, c := range hist {
+			fmt.Println(i, c.family, c.name)
+		}
+	}
+	if !res.Thorough() {
+		// every triple over a reduced alphabet: each family x each kind of target / each actor variant once
+		var red []c16case
+		for _, i := range []int{0, 5, 10, 12, 15, 20, 22, 27, 30, 32, 36, 44} {
+			if i < len(hist) {
+				red = append(red, hist[i])
+			}
+		}
+		for _, c1 := range red {
+			for _, c2 := range red {
+				for _, c3 := range red {
+					runHist([]c16case{c1, c2, c3})
+				}
+			}
 		}
 	}
 	if res.Thorough() {
